@@ -12,6 +12,7 @@ Case description (JSON, enough for `rerun`):
 """
 from __future__ import annotations
 
+import json
 from fractions import Fraction
 
 import numpy as np
@@ -194,7 +195,15 @@ def canon_subcircuits(ctx, lab, subcircuits):
 
 
 def canon_qmap(lab, qm):
-    return [None if a is None else [lab(a), int(b)] for a, b in qm]
+    out = []
+    for a, b in qm:
+        if a is None or b is None:
+            # only the documented (None, None) is canonical; (None, 0) or ('A', None) is a malformed entry
+            assert a is None and b is None, f"malformed qubit_map entry ({a!r}, {b!r})"
+            out.append(None)
+        else:
+            out.append([lab(a), int(b)])
+    return out
 
 
 def coq_subcircuits(subs):
@@ -350,7 +359,14 @@ def rand_regs(rng, n):
 def rand_partition(rng, n, allow_none):
     """labels for n qubits: 1..3 groups from the exotic pool (+ None for some qubits)."""
     ng = int(rng.integers(1, 4)) if (n < 2 or rng.integers(0, 3) == 0) else int(rng.integers(2, 4))
-    pool = [LABEL_POOL[i] for i in rng.permutation(len(LABEL_POOL))[:ng]]
+    src = LABEL_POOL
+    r = int(rng.integers(0, 8))
+    if r == 0:
+        src = list("ABCxyz")      # a plain string is then a valid label sequence
+        allow_none = False
+    elif r == 1:
+        src = [0, 1, 2, 7, -7]    # an integer numpy array is then a valid label sequence
+    pool = [src[i] for i in rng.permutation(len(src))[:ng]]
     labels = [pool[int(rng.integers(0, ng))] for _ in range(n)]
     if allow_none:
         for q in range(n):
@@ -447,10 +463,15 @@ def rand_items(rng, n, ncl, labels, *, length, within=0.9, clbits=False, qpd=Tru
                 items.append(["qpd1", ["cx", []], int(rng.integers(0, 2)), pick(rng, [None, 0, 3]), pick(rng, [None, "foo", "a_b"]), qs[0]])
             else:
                 # pre-placed cut gate: anywhere (this is what it is for)
-                cand = [q for q in range(n) if (labels is None or labels[q] is not None or rng.random() > within) and q not in idle]
-                if len(cand) < 2:
-                    continue
-                qs = [int(cand[i]) for i in rng.permutation(len(cand))[:2]]
+                if groups is not None and within >= 0.95 and rng.random() < within:
+                    qs = choose(2)  # inside one label group: stays a two-qubit placeholder of that partition
+                    if qs is None:
+                        continue
+                else:
+                    cand = [q for q in range(n) if (labels is None or labels[q] is not None or rng.random() > within) and q not in idle]
+                    if len(cand) < 2:
+                        continue
+                    qs = [int(cand[i]) for i in rng.permutation(len(cand))[:2]]
                 key = pick(rng, [["cx", []], ["cz", []], ["rzz", [fr(Fraction(1, 2))]]])
                 items.append(["qpd2", key, pick(rng, [None, None, 0, 2]), pick(rng, QPD_LABELS), qs])
     return items
@@ -528,13 +549,67 @@ def try_build(w, desc):
         return None
 
 
-def run_separate(desc, labels):
+LFORMS = ("list", "tuple", "str", "nparray")
+OFORMS = ("PauliList", "list")
+
+
+def as_labels(labels, form):
+    """the same label sequence in another call form (the Coq model knows no call form)"""
+    if labels is None or form == "list":
+        return labels
+    if form == "tuple":
+        return tuple(labels)
+    if form == "str":
+        assert all(isinstance(l, str) and len(l) == 1 for l in labels)
+        return "".join(labels)
+    if form == "nparray":
+        if all(isinstance(l, int) and not isinstance(l, bool) for l in labels):
+            return np.array(labels, dtype=int)
+        a = np.empty(len(labels), dtype=object)
+        for i, l in enumerate(labels):
+            a[i] = l
+        return a
+    raise ValueError(form)
+
+
+def forms_for(rng, labels, obs):
+    lf = "list"
+    if labels is not None and rng.integers(0, 5) < 2:
+        opts = ["tuple", "nparray"]
+        if labels and all(isinstance(l, str) and len(l) == 1 for l in labels):
+            opts += ["str", "str"]
+        lf = pick(rng, opts)
+    of = "list" if (obs is not None and rng.integers(0, 3) == 0) else "PauliList"
+    return lf, of
+
+
+def as_obs(obs, form, n):
+    if obs is None:
+        return None
+    if not obs:  # an empty collection of observables
+        return [] if form == "list" else PauliList(["I" * max(n, 1)])[:0]
+    pl = mk_plist(obs)
+    return list(pl) if form == "list" else pl
+
+
+def check_input_untouched(ctx, qc, cin):
+    if ctx.canon_circuit(qc) != cin:
+        raise AssertionError("the call modified the caller's circuit")
+
+
+def run_separate(desc, labels, lform="list"):
     qc = build(desc)
     ctx = CircCtx()
     cin = ctx.canon_circuit(qc)
     lab = Labeller(labels)
-    r = call_canon(separate_circuit, qc, labels)
-    impl = canon_result(r, lambda v: (canon_subcircuits(ctx, lab, v.subcircuits), canon_qmap(lab, v.qubit_map)))
+    r = call_canon(separate_circuit, qc, as_labels(labels, lform))
+
+    def conv(v):
+        out = (canon_subcircuits(ctx, lab, v.subcircuits), canon_qmap(lab, v.qubit_map))
+        check_input_untouched(ctx, qc, cin)
+        return out
+
+    impl = canon_result(r, conv)
     return qc, ctx, cin, lab, impl
 
 
@@ -544,16 +619,16 @@ def input_labels(qc):
             if isinstance(inst.operation, (TwoQubitQPDGate, SingleQubitQPDGate))]
 
 
-def run_problem(desc, labels, obs, calls=1, hist=None):
+def run_problem(desc, labels, obs, calls=1, hist=None, lform="list", oform="PauliList"):
     qc = build(desc)
     ctx = CircCtx()
     cin = ctx.canon_circuit(qc)
     tables = oracle_tables(ctx, qc, cin)
     lab = Labeller(labels)
-    pl = None if obs is None else mk_plist(obs)
+    pl = as_obs(obs, oform, qc.num_qubits)
     before = safe(lambda: input_labels(qc), "?")
     for _ in range(max(1, calls)):  # the same input handed to the function once or several times
-        r = call_canon(partition_problem, qc, labels, pl)
+        r = call_canon(partition_problem, qc, as_labels(labels, lform), pl)
     if hist is not None:
         hist["in_labels"] = [before, safe(lambda: input_labels(qc), "?")]
 
@@ -561,7 +636,9 @@ def run_problem(desc, labels, obs, calls=1, hist=None):
         so = None
         if v.subobservables is not None:
             so = [[("none" if k is None else lab(k)), canon_plist(x)] for k, x in v.subobservables.items()]
-        return (canon_subcircuits(ctx, lab, v.subcircuits), [ctx.basis_id(b) for b in v.bases], so)
+        out = (canon_subcircuits(ctx, lab, v.subcircuits), [ctx.basis_id(b) for b in v.bases], so)
+        check_input_untouched(ctx, qc, cin)
+        return out
 
     impl = canon_result(r, conv)
     return qc, ctx, cin, tables, lab, impl
@@ -605,7 +682,7 @@ def generate(rng, tier, outdir):
     q = tier == "quick"
     N = dict(split=200 if q else 2500, combine=200 if q else 2500, labels=300 if q else 3000, qmap=150 if q else 1500,
              separate=750 if q else 7000, pcq=300 if q else 3000, cut=250 if q else 2500, problem=900 if q else 8000,
-             preplaced=400 if q else 4000)
+             preplaced=400 if q else 4000, freshcut=400 if q else 5000)
 
     # ---- _split_barriers ----
     for _ in range(N["split"]):
@@ -711,13 +788,15 @@ def generate(rng, tier, outdir):
             desc = rand_desc(rng, n, None, clbits=clb, qpd=bool(rng.integers(0, 2)))
         elif mode < 9:  # explicit labels, circuit (mostly) compatible with them
             labels = rand_partition(rng, n, True)
-            desc = rand_desc(rng, n, labels, clbits=clb, within=0.97, qpd=False)
+            desc = rand_desc(rng, n, labels, clbits=clb, within=0.97, qpd=bool(rng.integers(0, 3) == 0))
         else:  # malformed stream: wrong count / incompatible circuit
             labels = rand_partition(rng, max(0, n + int(pick(rng, [-1, 0, 0, 1]))), True)
             desc = rand_desc(rng, n, None, clbits=clb)
         if try_build(w, desc) is None:
             continue
-        qc, ctx, cin, lab, impl = run_separate(desc, labels)
+        lform, _of = forms_for(rng, labels, None)
+        qc, ctx, cin, lab, impl = run_separate(desc, labels, lform)
+        w.count("separate.label_form", lform if labels is not None else "auto")
         if impl[0] == "ok":
             exp = Res("ok", (coq_subcircuits(impl[1]), coq_qmap(impl[2])))
         else:
@@ -725,7 +804,8 @@ def generate(rng, tier, outdir):
         ls = lab_ids(lab, labels)
         w.add("separate", "chk_separate",
               (n, cregs_idx(qc), coq_circ(cin), Opt(coq_labels(ls)) if ls is not None else Opt(), exp),
-              json_case("separate", desc, cin, labels=None if labels is None else [tagged(l) for l in labels], impl=impl),
+              json_case("separate", desc, cin, labels=None if labels is None else [tagged(l) for l in labels], impl=impl,
+                        lform=lform),
               nontrivial=(impl[0] == "ok" and len(impl[1]) > 1))
         w.count("separate.outcome", impl[0])
         w.count("separate.mode", "auto" if labels is None else ("malformed" if mode == 9 else "explicit"))
@@ -748,7 +828,12 @@ def generate(rng, tier, outdir):
         cin = ctx.canon_circuit(qc)
         tables = oracle_tables(ctx, qc, cin)
         lab = Labeller(labels)
-        r = canon_result(call_canon(partition_circuit_qubits, qc, labels), lambda v: (ctx.canon_circuit(v),))
+        def conv_pcq(v, ctx=ctx, qc=qc, cin=cin):
+            out = (ctx.canon_circuit(v),)
+            check_input_untouched(ctx, qc, cin)
+            return out
+
+        r = canon_result(call_canon(partition_circuit_qubits, qc, labels), conv_pcq)
         out = r[1] if r[0] == "ok" else None
         exp = Res("ok", coq_circ(out)) if r[0] == "ok" else Res(r[0])
         w.add("pcq", "chk_pcq", (coq_tables(tables), n, coq_circ(cin), coq_labels(lab_ids(lab, labels)), exp),
@@ -823,7 +908,13 @@ def generate(rng, tier, outdir):
         if try_build(w, desc) is None:
             continue
         hist = {}
-        qc, ctx, cin, tables, lab, impl = run_problem(desc, labels, obs, 1, hist)
+        if obs is not None and mode != "fixed" and rng.integers(0, 40) == 0:
+            obs = []  # an empty collection of observables
+        lform, oform = forms_for(rng, labels, obs)
+        qc, ctx, cin, tables, lab, impl = run_problem(desc, labels, obs, 1, hist, lform, oform)
+        hist.update(lform=lform, oform=oform)
+        w.count("problem.label_form", lform if labels is not None else "auto")
+        w.count("problem.obs_form", oform if obs is not None else "none")
         if impl[0] == "ok":
             so = impl[3]
             if so is None:
@@ -847,6 +938,7 @@ def generate(rng, tier, outdir):
         w.count("problem.n", n)
         if impl[0] == "ok":
             w.count("problem.ncuts", len(impl[2]))
+            w.count("problem.fresh_cuts", len(impl[2]) - sum(1 for i in cin if i["op"][0] == "qpd2"))
             w.count("problem.nsub", len(impl[1]))
             w.count("problem.preplaced_qpd2", any(i["op"][0] == "qpd2" for i in cin))
             w.count("problem.subobs_has_None_key", safe(lambda: bool(impl[3]) and any(k == "none" for k, _ in impl[3]), "?"))
@@ -884,7 +976,9 @@ def generate(rng, tier, outdir):
         if try_build(w, desc) is None:
             continue
         hist = {}
-        qc, ctx, cin, tables, lab, impl = run_problem(desc, labels, obs, calls, hist)
+        lform, oform = forms_for(rng, labels, obs)
+        qc, ctx, cin, tables, lab, impl = run_problem(desc, labels, obs, calls, hist, lform, oform)
+        hist.update(lform=lform, oform=oform)
         if impl[0] == "ok":
             so = impl[3]
             cso = Opt() if so is None else Opt([((4999 if k == "none" else k), [coq_pauli(c) for c in v]) for k, v in so])
@@ -907,6 +1001,70 @@ def generate(rng, tier, outdir):
         if impl[0] == "ok":
             w.count("preplaced.ncuts", len(impl[2]))
             w.count("preplaced.nsub", len(impl[1]))
+
+    # ---- partition_problem where gates are freshly cut: explicit labels without None, two or three groups, crossing
+    #      two-qubit gates of every supported kind drawn directly ----
+    kinds = list(G2) + ["move"]
+    for it in range(N["freshcut"]):
+        n = int(rng.integers(2, 7))
+        ng = 2 if n < 3 else int(rng.integers(2, 4))
+        pool = [LABEL_POOL[i] for i in rng.permutation(len(LABEL_POOL))[:ng]]
+        labels = [pool[int(rng.integers(0, ng))] for _ in range(n)]
+        if len(set(map(repr, labels))) < 2:
+            labels[0], labels[-1] = pool[0], pool[1]
+        desc = rand_desc(rng, n, labels, within=1.0, qpd=bool(rng.integers(0, 4) == 0), three=bool(rng.integers(0, 3) == 0))
+        cross = [(a, b) for a in range(n) for b in range(n) if a != b and labels[a] != labels[b]]
+        if not cross:  # e.g. the labels 1 and True are one label
+            continue
+        for _k in range(int(rng.integers(1, 5))):
+            a, b = cross[int(rng.integers(0, len(cross)))]
+            name = kinds[(it + _k) % len(kinds)] if rng.integers(0, 2) else pick(rng, kinds)
+            item = ["move", a, b] if name == "move" else ["g", name, [fr(pick(rng, ANGLES))] * NPAR.get(name, 0), [a, b]]
+            desc["items"].insert(int(rng.integers(0, len(desc["items"]) + 1)), item)
+        q2 = [i for i, x in enumerate(desc["items"]) if x[0] == "qpd2"]
+        desc.pop("predef", None)
+        if q2 and rng.integers(0, 2):
+            desc["predef"] = [i for i in q2 if rng.integers(0, 2)]
+        obs = rand_obs(rng, n, desc, labels) if rng.integers(0, 3) else None
+        if try_build(w, desc) is None:
+            continue
+        hist = {}
+        lform, oform = forms_for(rng, labels, obs)
+        qc, ctx, cin, tables, lab, impl = run_problem(desc, labels, obs, 1, hist, lform, oform)
+        hist.update(lform=lform, oform=oform)
+        if impl[0] == "ok":
+            so = impl[3]
+            cso = Opt() if so is None else Opt([((4999 if k == "none" else k), [coq_pauli(c) for c in v]) for k, v in so])
+            exp = Res("ok", (coq_subcircuits(impl[1]), impl[2], cso))
+        else:
+            exp = Res(impl[0])
+        ls = lab_ids(lab, labels)
+        cobs = Opt([coq_pauli(c) for c in obs]) if obs is not None else Opt()
+        w.add("freshcut", "chk_problem",
+              (coq_tables(tables), n, qc.num_clbits, len(qc.cregs), coq_circ(cin), Opt(coq_labels(ls)), cobs, exp),
+              json_case("problem", desc, cin, labels=[tagged(l) for l in labels], obs=obs, impl=impl, **hist),
+              nontrivial=(impl[0] == "ok" and len(impl[2]) > 0))
+        w.count("freshcut.outcome", impl[0])
+        if impl[0] == "ok":
+            fresh = len(impl[2]) - sum(1 for i in cin if i["op"][0] == "qpd2")
+            w.count("freshcut.fresh_cuts", fresh)
+            for i in cin:
+                if i["op"][0] in ("gate", "move") and len(i["qs"]) == 2 and labels[i["qs"][0]] != labels[i["qs"][1]]:
+                    w.count("freshcut.gate_kind", i["op"][2] if i["op"][0] == "gate" else "move")
+
+    # ---- the property-level oracle must accept what the unchanged implementation does: run it on the generated cases
+    #      (all of them in the quick tier, an evenly spread sample otherwise) ----
+    allcases = [jc for g in w.groups.values() for (_c, jc) in g["cases"]]
+    step = 1 if q else max(1, len(allcases) // 4000)
+    for jc in allcases[::step]:
+        try:
+            v = judge(json.loads(json.dumps(jc, default=str)))
+            okj = not v.get("violates")
+        except Exception:  # noqa: BLE001
+            okj = False
+        w.contract("judge_accepts_clean_case", okj)
+        if not okj and len(w.notes) < 5:
+            w.notes.append(f"judge flags a generated case: kind={jc.get('kind')} detail={str(v.get('detail'))[:200] if 'v' in dir() else '?'}")
 
     _W["w"] = None
     return w.finish(
@@ -1205,6 +1363,54 @@ def _cregs_of(desc):
 
 
 def _judge_problem(case, n, problems):
+    """explicit labels: one reading.  Automatic labels: the property only says that exactly the idle qubits are dropped and
+    that the result is a valid partition; both readings of 'connected' (barriers connecting or not) are accepted."""
+    if _label_ids_of_case(case) is not None:
+        return _judge_problem_with(case, n, [], True)
+    v = _judge_problem_with(case, n, [], True)
+    if v["violates"]:
+        v2 = _judge_problem_with(case, n, [], False)
+        if not v2["violates"]:
+            return v2
+    return v
+
+
+def _qmap_from_lids(lids):
+    cnt = {}
+    qmap = []
+    for l in lids:
+        if l is None:
+            qmap.append(None)
+        else:
+            qmap.append([l, cnt.get(l, 0)])
+            cnt[l] = cnt.get(l, 0) + 1
+    return qmap
+
+
+def _align_cut_indices(n, exp, lids, gotsubs):
+    """the property asks for 'two halves carrying the same cut index', not for a particular numbering: if the indices used
+    in the subcircuits are a consistent renaming of the list-order numbering, rename them before comparing structure"""
+    try:
+        back = _back_map(gotsubs, _qmap_from_lids(lids))
+    except (KeyError, IndexError):
+        return gotsubs
+    rec = [i for l, _, _ in gotsubs for i in back[l]]
+    fwd, bwd = {}, {}
+    for q in range(n):
+        a = [i for i in exp if q in i["qs"]]
+        b = [i for i in rec if q in i["qs"]]
+        if len(a) != len(b):
+            return gotsubs
+        for x, y in zip(a, b):
+            if x["op"][0] == "half" and y["op"][0] == "half":
+                p, k = x["op"][2], y["op"][2]
+                if fwd.setdefault(p, k) != k or bwd.setdefault(k, p) != p:
+                    return gotsubs
+    return [[l, nq, [dict(i, op=["half", i["op"][1], bwd.get(i["op"][2], i["op"][2])]) if i["op"][0] == "half" else i for i in c]]
+            for l, nq, c in gotsubs]
+
+
+def _judge_problem_with(case, n, problems, barriers_connect):
     impl, circ, obs = case["impl"], case["circ"], case["obs"]
     lids = _label_ids_of_case(case)
     auto = lids is None
@@ -1218,7 +1424,8 @@ def _judge_problem(case, n, problems):
         return dict(violates=False, detail="zero-qubit instruction; property silent")
     if auto:
         # automatic labels: connectivity of everything except TwoQubitQPDGates (barriers count); idle -> None
-        comps = sorted(_components(n, circ, lambda i: i["op"][0] == "qpd2"), key=min)
+        comps = sorted(_components(n, circ, lambda i: i["op"][0] == "qpd2" or (i["op"][0] == "barrier" and not barriers_connect)),
+                       key=min)
         comps = [c for c in comps if not (len(c) == 1 and next(iter(c)) not in used)]
         lids = [None] * n
         for j, c in enumerate(comps):
@@ -1286,9 +1493,9 @@ def _judge_problem(case, n, problems):
         elif hs[0][1:] != hs[1][1:] or hs[0][1] != bases[kidx]:
             problems.append(f"cut {kidx}: halves {hs} do not carry the same basis/label, or differ from bases[{kidx}]={bases[kidx]}")
     if not problems:
-        _structure_checks(n, exp, lids, gotsubs, None, problems)
+        _structure_checks(n, exp, lids, _align_cut_indices(n, exp, lids, gotsubs), None, problems)
     # ---- sub-observables ----
-    if obs is None:
+    if obs is None or len(obs) == 0:  # `if observables:` — an empty collection yields no sub-observables
         if so is not None:
             problems.append("no observables given but sub-observables returned")
     else:
@@ -1378,7 +1585,7 @@ def _rerun(case):
         case["impl"] = [r[0], r[1]]
     elif k == "separate":
         labels = None if case["labels"] is None else [untag(t) for t in case["labels"]]
-        qc, ctx, cin, lab, impl = run_separate(desc, labels)
+        qc, ctx, cin, lab, impl = run_separate(desc, labels, case.get("lform", "list"))
         case["circ"], case["impl"] = cin, impl
     elif k == "pcq":
         labels = [untag(t) for t in case["labels"]]
@@ -1399,7 +1606,8 @@ def _rerun(case):
     elif k == "problem":
         labels = None if case["labels"] is None else [untag(t) for t in case["labels"]]
         hist = {}
-        qc, ctx, cin, tables, lab, impl = run_problem(desc, labels, case["obs"], case.get("calls", 1), hist)
+        qc, ctx, cin, tables, lab, impl = run_problem(desc, labels, case["obs"], case.get("calls", 1), hist,
+                                                      case.get("lform", "list"), case.get("oform", "PauliList"))
         case["circ"], case["impl"] = cin, impl
         case.update(hist)
     else:
